@@ -11,21 +11,6 @@ import DateutilVerif.Proofs.RRuleSecondlyBHM
 namespace RRule
 open Cal
 
-/-- hour, minute and second all pass their (optional) BY lists -/
-def listed3 (a : Args) (h m s : Int) : Bool :=
-  listedO a.byhour h && listedO a.byminute m && listedO a.bysecond s
-
-/-- SECONDLY with BYSECOND (BYHOUR, BYMINUTE optional): some second of the grid (orbit of the start under `+INTERVAL`,
-    which repeats after at most 86400 steps) has listed hour, minute and second.  With `a.bysecond = none` this is
-    `reachableS a`. -/
-def reachableSS (a : Args) : Prop :=
-  (List.range 86400).any (fun j =>
-    listed3 a
-      (((a.dtstart.hh * 60 + a.dtstart.mm) * 60 + a.dtstart.ss + (j : Int) * a.interval) / 3600 % 24)
-      (((a.dtstart.hh * 60 + a.dtstart.mm) * 60 + a.dtstart.ss + (j : Int) * a.interval) / 60 % 60)
-      (((a.dtstart.hh * 60 + a.dtstart.mm) * 60 + a.dtstart.ss + (j : Int) * a.interval) % 60)) = true
-instance (a : Args) : Decidable (reachableSS a) := by unfold reachableSS; exact inferInstance
-
 structure SecondlyBSArgs (a : Args) : Prop where
   freq : a.freq = 6
   interval : 1 ≤ a.interval
